@@ -115,36 +115,40 @@ Qed.
 
 (* ================= the global invariant on (indices, slots, ledger, logs) =================
    pu = values accepted so far (committed by a tail store), po = values delivered so far (committed by a head store),
-   pw = values written by the push operation in flight, pr = values read by the pop operation in flight.
+   pw = values written by the push operation in flight, pr = values moved out by the pop operation in flight, d = how many
+   of the latter have also been destroyed (d <= |pr| <= d + 1 in every reachable state: the element moved out last may still
+   await its destructor call).
    Positions are counted from 0 without wrapping: position p lives in slot p mod k. *)
-Definition G (k h t : Z) (sl : Z -> Z) (l : ledger) (pu po pr pw : list Z) : Prop :=
+Definition G (k h t : Z) (sl : Z -> Z) (l : ledger) (pu po pr : list Z) (d : Z) (pw : list Z) : Prop :=
   (2 <= k < 2 ^ 63) /\ h = zlen po mod k /\ t = zlen pu mod k /\
   zlen po + zlen pr <= zlen pu /\ zlen pu + zlen pw <= zlen po + k - 1 /\
+  0 <= d <= zlen pr /\
   po ++ pr = firstn (Z.to_nat (zlen po + zlen pr)) pu /\
   (forall p, zlen po <= p < zlen pu + zlen pw -> sl (p mod k) = nth (Z.to_nat p) (pu ++ pw) 0) /\
   (forall p, zlen po + zlen pr <= p < zlen pu + zlen pw -> lget l (p mod k) = Alive) /\
-  (forall p, zlen pu + zlen pw <= p < zlen po + zlen pr + k -> is_live (lget l (p mod k)) = false) /\
+  (forall p, zlen po + d <= p < zlen po + zlen pr -> lget l (p mod k) = MovedFrom) /\
+  (forall p, zlen pu + zlen pw <= p < zlen po + d + k -> is_live (lget l (p mod k)) = false) /\
   l_errs l = [].
 
-Lemma G_init k : 2 <= k < 2 ^ 63 -> G k 0 0 (fun _ => 0) ledger0 [] [] [] [].
+Lemma G_init k : 2 <= k < 2 ^ 63 -> G k 0 0 (fun _ => 0) ledger0 [] [] [] 0 [].
 Proof.
   intros Kb. unfold G, zlen. cbn [length app Z.of_nat].
   split; [exact Kb|]. split; [rewrite Z.mod_0_l; lia|]. split; [rewrite Z.mod_0_l; lia|].
-  split; [lia|]. split; [lia|]. split; [reflexivity|].
-  split; [intros p Hp; lia|]. split; [intros p Hp; lia|]. split; [intros p Hp; reflexivity | reflexivity].
+  split; [lia|]. split; [lia|]. split; [lia|]. split; [reflexivity|].
+  split; [intros p Hp; lia|]. split; [intros p Hp; lia|]. split; [intros p Hp; lia|]. split; [intros p Hp; reflexivity | reflexivity].
 Qed.
 
 (* placement-new of v at the next free position *)
-Lemma G_write k h t sl l pu po pr pw v :
-  G k h t sl l pu po pr pw -> zlen pu + zlen pw < zlen po + k - 1 ->
-  G k h t (fupd sl ((zlen pu + zlen pw) mod k) v) (construct KMove ((zlen pu + zlen pw) mod k) l) pu po pr (pw ++ [v]).
+Lemma G_write k h t sl l pu po pr d pw v :
+  G k h t sl l pu po pr d pw -> zlen pu + zlen pw < zlen po + k - 1 ->
+  G k h t (fupd sl ((zlen pu + zlen pw) mod k) v) (construct KMove ((zlen pu + zlen pw) mod k) l) pu po pr d (pw ++ [v]).
 Proof.
-  intros (Kb & Eh & Et & B1 & B2 & P1 & V1 & L1 & L2 & Ok) Lt.
+  intros (Kb & Eh & Et & B1 & B2 & Bd & P1 & V1 & L1 & Lm & L2 & Ok) Lt.
   pose proof (zlen_nonneg pr) as Npr. pose proof (zlen_nonneg pw) as Npw. pose proof (zlen_nonneg po) as Npo.
   set (i := (zlen pu + zlen pw) mod k).
   unfold G. rewrite zlen_app, zlen_one.
-  split; [exact Kb|]. split; [exact Eh|]. split; [exact Et|]. split; [exact B1|]. split; [lia|]. split; [exact P1|].
-  split; [|split; [|split]].
+  split; [exact Kb|]. split; [exact Eh|]. split; [exact Et|]. split; [exact B1|]. split; [lia|]. split; [exact Bd|]. split; [exact P1|].
+  split; [|split; [|split; [|split]]].
   - intros p Hp. unfold fupd. rewrite app_assoc.
     destruct (Z.eq_dec p (zlen pu + zlen pw)) as [->|N].
     + fold i. rewrite Z.eqb_refl. rewrite <- zlen_app. apply eq_sym, nth_z_last.
@@ -153,60 +157,90 @@ Proof.
       * rewrite nth_z_app1 by (rewrite zlen_app; lia). apply V1. lia.
   - intros p Hp. rewrite lget_construct. destruct (i =? p mod k) eqn:E; [reflexivity|]. apply L1.
     destruct (Z.eq_dec p (zlen pu + zlen pw)) as [->|N]; [|lia]. unfold i in E. rewrite Z.eqb_refl in E. discriminate.
+  - intros p Hp. rewrite lget_construct. destruct (i =? p mod k) eqn:E; [|apply Lm; exact Hp].
+    apply Z.eqb_eq in E. exfalso.
+    assert (zlen pu + zlen pw = p); [|lia]. apply (mod_window k (zlen po)); [lia | lia | lia | exact E].
   - intros p Hp. rewrite lget_construct. destruct (i =? p mod k) eqn:E.
     + apply Z.eqb_eq in E. exfalso.
-      assert (zlen pu + zlen pw = p); [|lia]. apply (mod_window k (zlen po + zlen pr)); [lia | lia | lia | exact E].
+      assert (zlen pu + zlen pw = p); [|lia]. apply (mod_window k (zlen po + d)); [lia | lia | lia | exact E].
     + apply L2. lia.
   - rewrite errs_construct_fresh; [exact Ok|]. apply L2. lia.
 Qed.
 
 (* tail store: the values in flight become visible *)
-Lemma G_commit_w k h t sl l pu po pr pw :
-  G k h t sl l pu po pr pw -> G k h ((zlen pu + zlen pw) mod k) sl l (pu ++ pw) po pr [].
+Lemma G_commit_w k h t sl l pu po pr d pw :
+  G k h t sl l pu po pr d pw -> G k h ((zlen pu + zlen pw) mod k) sl l (pu ++ pw) po pr d [].
 Proof.
-  intros (Kb & Eh & Et & B1 & B2 & P1 & V1 & L1 & L2 & Ok).
+  intros (Kb & Eh & Et & B1 & B2 & Bd & P1 & V1 & L1 & Lm & L2 & Ok).
   pose proof (zlen_nonneg pr) as Npr. pose proof (zlen_nonneg pw) as Npw. pose proof (zlen_nonneg po) as Npo.
   unfold G. rewrite zlen_app, zlen_nil, app_nil_r, !Z.add_0_r.
-  split; [exact Kb|]. split; [exact Eh|]. split; [reflexivity|]. split; [lia|]. split; [exact B2|].
-  split; [|split; [exact V1|split; [exact L1|split; [exact L2|exact Ok]]]].
+  split; [exact Kb|]. split; [exact Eh|]. split; [reflexivity|]. split; [lia|]. split; [exact B2|]. split; [exact Bd|].
+  split; [|split; [exact V1|split; [exact L1|split; [exact Lm|split; [exact L2|exact Ok]]]]].
   rewrite firstn_app_le; [exact P1|]. unfold zlen in *. lia.
 Qed.
 
-(* move-out + destructor of the oldest element not yet read *)
-Lemma G_take k h t sl l pu po pr pw :
-  G k h t sl l pu po pr pw -> zlen po + zlen pr < zlen pu ->
-  G k h t sl (destroy ((zlen po + zlen pr) mod k) (move_from ((zlen po + zlen pr) mod k) l)) pu po
-    (pr ++ [sl ((zlen po + zlen pr) mod k)]) pw.
+(* move-out of the oldest element not yet read (its destructor has not run yet) *)
+Lemma G_move k h t sl l pu po pr d pw :
+  G k h t sl l pu po pr d pw -> d = zlen pr -> zlen po + zlen pr < zlen pu ->
+  G k h t sl (move_from ((zlen po + zlen pr) mod k) l) pu po (pr ++ [sl ((zlen po + zlen pr) mod k)]) d pw.
 Proof.
-  intros (Kb & Eh & Et & B1 & B2 & P1 & V1 & L1 & L2 & Ok) Lt.
+  intros (Kb & Eh & Et & B1 & B2 & Bd & P1 & V1 & L1 & Lm & L2 & Ok) Ed Lt.
   pose proof (zlen_nonneg pr) as Npr. pose proof (zlen_nonneg pw) as Npw. pose proof (zlen_nonneg po) as Npo.
   set (i := (zlen po + zlen pr) mod k).
   assert (A : lget l i = Alive) by (apply L1; lia).
+  assert (Lv : is_live (lget l i) = true) by (rewrite A; reflexivity).
   unfold G. rewrite zlen_app, zlen_one.
-  split; [exact Kb|]. split; [exact Eh|]. split; [exact Et|]. split; [lia|]. split; [exact B2|].
-  split; [|split; [exact V1|split; [|split]]].
+  split; [exact Kb|]. split; [exact Eh|]. split; [exact Et|]. split; [lia|]. split; [exact B2|]. split; [lia|].
+  split; [|split; [exact V1|split; [|split; [|split]]]].
   - rewrite app_assoc, P1. unfold i. rewrite V1 by lia. rewrite nth_z_app1 by lia.
     replace (Z.to_nat (zlen po + (zlen pr + 1))) with (S (Z.to_nat (zlen po + zlen pr))) by lia.
     rewrite firstn_succ_nth; [reflexivity|]. unfold zlen in *. lia.
-  - intros p Hp. rewrite take_lget by exact A. destruct (i =? p mod k) eqn:E; [|apply L1; lia].
+  - intros p Hp. rewrite lget_move_from_live by exact Lv. destruct (i =? p mod k) eqn:E; [|apply L1; lia].
     apply Z.eqb_eq in E. exfalso.
     assert (zlen po + zlen pr = p); [|lia]. apply (mod_window k (zlen po + zlen pr)); [lia | lia | lia | exact E].
-  - intros p Hp. rewrite take_lget by exact A. destruct (i =? p mod k) eqn:E; [reflexivity|]. apply L2.
-    destruct (Z.eq_dec p (zlen po + zlen pr + k)) as [->|N]; [|lia].
-    unfold i in E. rewrite mod_plus_k, Z.eqb_refl in E by lia. discriminate.
-  - rewrite take_errs by exact A. exact Ok.
+  - intros p Hp. rewrite lget_move_from_live by exact Lv. destruct (i =? p mod k) eqn:E; [reflexivity|].
+    assert (p = zlen po + zlen pr) by lia. subst p. unfold i in E. rewrite Z.eqb_refl in E. discriminate.
+  - intros p Hp. rewrite lget_move_from_live by exact Lv. destruct (i =? p mod k) eqn:E; [|apply L2; exact Hp].
+    apply Z.eqb_eq in E. exfalso.
+    assert (zlen po + zlen pr = p); [|lia]. apply (mod_window k (zlen po + zlen pr)); [lia | lia | lia | exact E].
+  - rewrite errs_move_from_live by exact Lv. exact Ok.
 Qed.
 
-(* head store: the values read in flight are delivered *)
-Lemma G_commit_r k h t sl l pu po pr pw :
-  G k h t sl l pu po pr pw -> G k ((zlen po + zlen pr) mod k) t sl l pu (po ++ pr) [] pw.
+(* destructor call on the element moved out last *)
+Lemma G_destroy k h t sl l pu po pr d pw :
+  G k h t sl l pu po pr d pw -> zlen pr = d + 1 ->
+  G k h t sl (destroy ((zlen po + d) mod k) l) pu po pr (d + 1) pw.
 Proof.
-  intros (Kb & Eh & Et & B1 & B2 & P1 & V1 & L1 & L2 & Ok).
+  intros (Kb & Eh & Et & B1 & B2 & Bd & P1 & V1 & L1 & Lm & L2 & Ok) Ed.
+  pose proof (zlen_nonneg pr) as Npr. pose proof (zlen_nonneg pw) as Npw. pose proof (zlen_nonneg po) as Npo.
+  set (i := (zlen po + d) mod k).
+  assert (A : lget l i = MovedFrom) by (apply Lm; lia).
+  assert (Lv : is_live (lget l i) = true) by (rewrite A; reflexivity).
+  unfold G.
+  split; [exact Kb|]. split; [exact Eh|]. split; [exact Et|]. split; [exact B1|]. split; [exact B2|]. split; [lia|].
+  split; [exact P1|]. split; [exact V1|]. split; [|split; [|split]].
+  - intros p Hp. rewrite lget_destroy_live by exact Lv. destruct (i =? p mod k) eqn:E; [|apply L1; lia].
+    apply Z.eqb_eq in E. exfalso.
+    assert (zlen po + d = p); [|lia]. apply (mod_window k (zlen po + d)); [lia | lia | lia | exact E].
+  - intros p Hp. lia.
+  - intros p Hp. rewrite lget_destroy_live by exact Lv. destruct (i =? p mod k) eqn:E; [reflexivity|]. apply L2.
+    destruct (Z.eq_dec p (zlen po + d + k)) as [->|N]; [|lia].
+    unfold i in E. rewrite mod_plus_k, Z.eqb_refl in E by lia. discriminate.
+  - rewrite errs_destroy_live by exact Lv. exact Ok.
+Qed.
+
+(* head store: the values read in flight are delivered (all of them have been destroyed) *)
+Lemma G_commit_r k h t sl l pu po pr d pw :
+  G k h t sl l pu po pr d pw -> d = zlen pr -> G k ((zlen po + zlen pr) mod k) t sl l pu (po ++ pr) [] 0 pw.
+Proof.
+  intros (Kb & Eh & Et & B1 & B2 & Bd & P1 & V1 & L1 & Lm & L2 & Ok) Ed.
   pose proof (zlen_nonneg pr) as Npr. pose proof (zlen_nonneg pw) as Npw. pose proof (zlen_nonneg po) as Npo.
   unfold G. rewrite zlen_app, zlen_nil, app_nil_r, !Z.add_0_r.
-  split; [exact Kb|]. split; [reflexivity|]. split; [exact Et|]. split; [exact B1|]. split; [lia|]. split; [exact P1|].
-  split; [|split; [exact L1|split; [exact L2|exact Ok]]].
-  intros p Hp. apply V1. lia.
+  split; [exact Kb|]. split; [reflexivity|]. split; [exact Et|]. split; [exact B1|]. split; [lia|]. split; [lia|]. split; [exact P1|].
+  split; [|split; [exact L1|split; [|split; [|exact Ok]]]].
+  - intros p Hp. apply V1. lia.
+  - intros p Hp. lia.
+  - intros p Hp. apply L2. lia.
 Qed.
 
 (* ================= threads ================= *)
@@ -219,7 +253,10 @@ Definition cons_op (o : op) : Prop :=
 Definition wl (p : pc) : list Z :=
   match p with PPushStoreTail v _ => [v] | PBWrite _ _ _ _ wr => wr | PBStoreTail _ _ wr => wr | _ => [] end.
 Definition rl (p : pc) : list Z :=
-  match p with PPopStoreHead _ v => [v] | PQRead _ _ _ acc => acc | PQStoreHead _ _ acc => acc | _ => [] end.
+  match p with PPopDestroy _ v | PPopStoreHead _ v => [v] | PQRead _ _ _ acc | PQDestroy _ _ _ acc | PQStoreHead _ _ acc => acc | _ => [] end.
+(* how many of the values moved out in flight have also been destroyed *)
+Definition dl (p : pc) : Z :=
+  match p with PPopStoreHead _ _ => 1 | PQRead _ i _ _ | PQDestroy _ i _ _ => i | PQStoreHead _ cnt _ => cnt | _ => 0 end.
 
 (* what the producer knows at each program point (tl = tail, T = #accepted, H = #delivered) *)
 Definition prod_facts (k tl T H : Z) (p : pc) : Prop :=
@@ -240,16 +277,18 @@ Definition cons_facts (k hd T H : Z) (p : pc) : Prop :=
   | PStart | PDone | PPopLoadHead | PSizeLoadHead | PSizeLoadTail _ | PEmpty | PFull => True
   | PPopLoadTail c => c = hd
   | PPopRead c => c = hd /\ H < T
+  | PPopDestroy c v => c = hd
   | PPopStoreHead c v => c = hd
   | PQLoadHead m => 0 <= m
   | PQLoadTail m c => c = hd /\ 0 <= m
   | PQRead hp i cnt acc => hp = (H + i) mod k /\ i = zlen acc /\ i < cnt /\ H + cnt <= T
+  | PQDestroy hp i cnt acc => hp = (H + i) mod k /\ i + 1 = zlen acc /\ i < cnt /\ H + cnt <= T
   | PQStoreHead hp cnt acc => hp = (H + cnt) mod k /\ cnt = zlen acc /\ 0 < cnt
   | _ => False
   end.
 
 Definition Inv (s : state) : Prop :=
-  G (K s) (head s) (tail s) (slots s) (led s) (pushed s) (popped s) (rl (tpc (th1 s))) (wl (tpc (th0 s))) /\
+  G (K s) (head s) (tail s) (slots s) (led s) (pushed s) (popped s) (rl (tpc (th1 s))) (dl (tpc (th1 s))) (wl (tpc (th0 s))) /\
   prod_facts (K s) (tail s) (zlen (pushed s)) (zlen (popped s)) (tpc (th0 s)) /\
   cons_facts (K s) (head s) (zlen (pushed s)) (zlen (popped s)) (tpc (th1 s)) /\
   Forall prod_op (prog (th0 s)) /\ Forall cons_op (prog (th1 s)).
@@ -265,6 +304,8 @@ Proof. unfold next. destruct (prog th); reflexivity. Qed.
 Lemma next_wl th : wl (tpc (next th)) = [].
 Proof. unfold next. destruct (prog th) as [|o r]; [reflexivity|]. destruct o; reflexivity. Qed.
 Lemma next_rl th : rl (tpc (next th)) = [].
+Proof. unfold next. destruct (prog th) as [|o r]; [reflexivity|]. destruct o; reflexivity. Qed.
+Lemma next_dl th : dl (tpc (next th)) = 0.
 Proof. unfold next. destruct (prog th) as [|o r]; [reflexivity|]. destruct o; reflexivity. Qed.
 
 Lemma next_prod k tl T H th : Forall prod_op (prog th) ->
@@ -287,7 +328,7 @@ Lemma prog_logrs th a b : prog (logrs th a b) = prog th. Proof. reflexivity. Qed
 (* a step of thread 0 that leaves head and thread 1 alone *)
 Lemma prod_step_inv s th' tl' sl' l' :
   Inv s ->
-  G (K s) (head s) tl' sl' l' (vals_of r_push (res th')) (popped s) (rl (tpc (th1 s))) (wl (tpc th')) ->
+  G (K s) (head s) tl' sl' l' (vals_of r_push (res th')) (popped s) (rl (tpc (th1 s))) (dl (tpc (th1 s))) (wl (tpc th')) ->
   prod_facts (K s) tl' (zlen (vals_of r_push (res th'))) (zlen (popped s)) (tpc th') ->
   zlen (pushed s) <= zlen (vals_of r_push (res th')) ->
   Forall prod_op (prog th') ->
@@ -301,7 +342,7 @@ Qed.
 (* a step of thread 1 that leaves tail, slots and thread 0 alone *)
 Lemma cons_step_inv s th' hd' l' :
   Inv s ->
-  G (K s) hd' (tail s) (slots s) l' (pushed s) (vals_of r_pop (res th')) (rl (tpc th')) (wl (tpc (th0 s))) ->
+  G (K s) hd' (tail s) (slots s) l' (pushed s) (vals_of r_pop (res th')) (rl (tpc th')) (dl (tpc th')) (wl (tpc (th0 s))) ->
   cons_facts (K s) hd' (zlen (pushed s)) (zlen (vals_of r_pop (res th'))) (tpc th') ->
   zlen (popped s) <= zlen (vals_of r_pop (res th')) ->
   Forall cons_op (prog th') ->
@@ -353,12 +394,12 @@ Proof.
   - apply Z.eqb_neq in E. apply Z.eqb_neq. intros M. apply E. apply (mod_window k H); [lia | lia | lia | exact M].
 Qed.
 
-Ltac st_simpl := unfold set_thread, set_tail, set_head, write_slot, take_slot; cbn [K head tail slots led th0 th1].
+Ltac st_simpl := unfold set_thread, set_tail, set_head, write_slot, move_slot, destroy_slot; cbn [K head tail slots led th0 th1].
 
-Lemma G_bounds k h t sl l pu po pr pw : G k h t sl l pu po pr pw ->
+Lemma G_bounds k h t sl l pu po pr d pw : G k h t sl l pu po pr d pw ->
   2 <= k < 2 ^ 63 /\ h = zlen po mod k /\ t = zlen pu mod k /\ 0 <= zlen po /\ zlen po + zlen pr <= zlen pu /\ zlen pu + zlen pw <= zlen po + k - 1 /\ 0 <= zlen pr /\ 0 <= zlen pw.
 Proof.
-  intros (Kb & Eh & Et & B1 & B2 & _). pose proof (zlen_nonneg pr). pose proof (zlen_nonneg pw). pose proof (zlen_nonneg po). tauto.
+  intros (Kb & Eh & Et & B1 & B2 & _ & _). pose proof (zlen_nonneg pr). pose proof (zlen_nonneg pw). pose proof (zlen_nonneg po). tauto.
 Qed.
 
 
@@ -391,7 +432,7 @@ Lemma step_prod s ch s' ch' site : Inv s -> step s 0 ch = Some (s', ch', site) -
 Proof.
   intros I0 E. pose proof I0 as (Gs & PF & CF & FP & FC).
   unfold step in E. cbn [get_thread] in E.
-  pose proof (G_bounds _ _ _ _ _ _ _ _ _ Gs) as (Kb & Eh & Et & H0 & B1 & B2 & Nr & Nw).
+  pose proof (G_bounds _ _ _ _ _ _ _ _ _ _ Gs) as (Kb & Eh & Et & H0 & B1 & B2 & Nr & Nw).
   destruct (tpc (th0 s)) eqn:P; cbn [wl prod_facts] in Gs, PF, B2; try contradiction; try (change (zlen (@nil Z)) with 0 in B2; rewrite Z.add_0_r in B2).
   - (* PStart *) injection E as <- _ _. st_simpl.
     apply prod_step_inv; [exact I0 | rewrite next_wl, next_res; exact Gs | rewrite next_res; apply next_pf; exact FP | rewrite next_res; apply Z.le_refl | apply next_pp; exact FP].
@@ -404,13 +445,13 @@ Proof.
       cbn. split; [reflexivity|]. rewrite Eh, Et in C. rewrite full_test in C by lia. apply Z.eqb_neq in C. change (zlen (pushed s) - zlen (popped s) < K s - 1). lia.
   - (* PPushWrite *) destruct PF as [-> Lt]. injection E as <- _ _. st_simpl.
     apply prod_step_inv; [exact I0 | | reflexivity | apply Z.le_refl | exact FP].
-    cbn [goto tpc res wl]. pose proof (G_write _ _ _ _ _ _ _ _ _ v Gs) as W.
+    cbn [goto tpc res wl]. pose proof (G_write _ _ _ _ _ _ _ _ _ _ v Gs) as W.
     change (zlen (@nil Z)) with 0 in W. rewrite Z.add_0_r, <- Et in W. apply W. lia.
   - (* PPushStoreTail *) subst ct. injection E as <- _ _. st_simpl.
     assert (V : vals_of r_push (res (next (logr (th0 s) r_push v))) = pushed s ++ [v]).
     { rewrite vals_next_logr. reflexivity. }
     apply prod_step_inv; [exact I0 | | rewrite V; apply next_pf; exact FP | rewrite V, zlen_app; change (zlen [v]) with 1; lia | apply next_pp; exact FP].
-    rewrite next_wl, V. pose proof (G_commit_w _ _ _ _ _ _ _ _ _ Gs) as W.
+    rewrite next_wl, V. pose proof (G_commit_w _ _ _ _ _ _ _ _ _ _ Gs) as W.
     change (zlen [v]) with 1 in W. change (zlen [v]) with 1 in B2.
     rewrite Et, increment_mod, succ_mod by (try apply Z.mod_pos_bound; lia). exact W.
   - (* PBLoadTail *) injection E as <- _ _. st_simpl.
@@ -428,7 +469,7 @@ Proof.
         split; [discriminate|]. split; [rewrite Z.add_0_r; exact Et|]. split; [reflexivity|]. lia.
   - (* PBWrite *) destruct PF as (Nv & -> & -> & Lt & Ba). destruct vs as [|v rest]; [contradiction|].
     pose proof (zlen_nonneg wr) as Nwr.
-    pose proof (G_write _ _ _ _ _ _ _ _ _ v Gs ltac:(lia)) as W.
+    pose proof (G_write _ _ _ _ _ _ _ _ _ _ v Gs ltac:(lia)) as W.
     assert (Etp : increment (K s) ((zlen (pushed s) + zlen wr) mod K s) = (zlen (pushed s) + (zlen wr + 1)) mod K s).
     { rewrite increment_mod, succ_mod, Z.add_assoc by (try apply Z.mod_pos_bound; lia). reflexivity. }
     assert (Ecn : zlen wr + 1 = zlen (wr ++ [v])) by (rewrite zlen_app; reflexivity).
@@ -447,7 +488,7 @@ Proof.
     { rewrite vals_next_logr. change (r_pushb =? r_push) with false. rewrite app_nil_r. cbn [logrs res].
       rewrite vals_of_logrs. reflexivity. }
     apply prod_step_inv; [exact I0 | | rewrite V; apply next_pf; exact FP | rewrite V, zlen_app; lia | apply next_pp; exact FP].
-    rewrite next_wl, V. exact (G_commit_w _ _ _ _ _ _ _ _ _ Gs).
+    rewrite next_wl, V. exact (G_commit_w _ _ _ _ _ _ _ _ _ _ Gs).
   - (* PSizeLoadHead *) injection E as <- _ _. st_simpl.
     apply prod_step_inv; [exact I0 | exact Gs | reflexivity | apply Z.le_refl | exact FP].
   - (* PSizeLoadTail *) injection E as <- _ _. st_simpl. apply prod_done_inv; [exact I0 | rewrite P; reflexivity | reflexivity].
@@ -458,40 +499,44 @@ Qed.
 
 (* an operation of thread 1 completes without delivering anything *)
 Lemma cons_done_inv s t v :
-  Inv s -> rl (tpc (th1 s)) = [] -> (t =? r_pop) = false ->
+  Inv s -> rl (tpc (th1 s)) = [] -> dl (tpc (th1 s)) = 0 -> (t =? r_pop) = false ->
   Inv (ST (K s) (head s) (tail s) (slots s) (led s) (th0 s) (next (logr (th1 s) t v))).
 Proof.
-  intros I0 W Nt. pose proof I0 as (Gs & PF & CF & FP & FC). rewrite W in Gs.
+  intros I0 W Wd Nt. pose proof I0 as (Gs & PF & CF & FP & FC). rewrite W, Wd in Gs.
   assert (V : vals_of r_pop (res (next (logr (th1 s) t v))) = popped s).
   { rewrite vals_next_logr, Nt, app_nil_r. reflexivity. }
-  apply cons_step_inv; [exact I0 | rewrite next_rl, V; exact Gs | rewrite V; apply next_cf; exact FC | rewrite V; apply Z.le_refl | apply next_cp; exact FC].
+  apply cons_step_inv; [exact I0 | rewrite next_rl, next_dl, V; exact Gs | rewrite V; apply next_cf; exact FC | rewrite V; apply Z.le_refl | apply next_cp; exact FC].
 Qed.
 
 Lemma step_cons s ch s' ch' site : Inv s -> step s 1 ch = Some (s', ch', site) -> Inv s'.
 Proof.
   intros I0 E. pose proof I0 as (Gs & PF & CF & FP & FC).
   unfold step in E. cbn [get_thread] in E.
-  pose proof (G_bounds _ _ _ _ _ _ _ _ _ Gs) as (Kb & Eh & Et & H0 & B1 & B2 & Nr & Nw).
-  destruct (tpc (th1 s)) eqn:P; cbn [rl cons_facts] in Gs, CF, B1; try contradiction; try (change (zlen (@nil Z)) with 0 in B1; rewrite Z.add_0_r in B1).
+  pose proof (G_bounds _ _ _ _ _ _ _ _ _ _ Gs) as (Kb & Eh & Et & H0 & B1 & B2 & Nr & Nw).
+  destruct (tpc (th1 s)) eqn:P; cbn [rl dl cons_facts] in Gs, CF, B1; try contradiction; try (change (zlen (@nil Z)) with 0 in B1; rewrite Z.add_0_r in B1).
   - (* PStart *) injection E as <- _ _. st_simpl.
-    apply cons_step_inv; [exact I0 | rewrite next_rl, next_res; exact Gs | rewrite next_res; apply next_cf; exact FC | rewrite next_res; apply Z.le_refl | apply next_cp; exact FC].
+    apply cons_step_inv; [exact I0 | rewrite next_rl, next_dl, next_res; exact Gs | rewrite next_res; apply next_cf; exact FC | rewrite next_res; apply Z.le_refl | apply next_cp; exact FC].
   - (* PPopLoadHead *) injection E as <- _ _. st_simpl.
     apply cons_step_inv; [exact I0 | exact Gs | reflexivity | apply Z.le_refl | exact FC].
   - (* PPopLoadTail *) subst ch0.
     destruct (head s =? tail s) eqn:C; injection E as <- _ _; st_simpl.
-    + apply cons_done_inv; [exact I0 | rewrite P; reflexivity | reflexivity].
+    + apply cons_done_inv; [exact I0 | rewrite P; reflexivity | rewrite P; reflexivity | reflexivity].
     + apply cons_step_inv; [exact I0 | exact Gs | | apply Z.le_refl | exact FC].
       cbn. split; [reflexivity|]. rewrite Eh, Et in C. rewrite empty_test in C by lia. apply Z.eqb_neq in C.
       change (zlen (popped s) < zlen (pushed s)). lia.
   - (* PPopRead *) destruct CF as [-> Lt]. injection E as <- _ _. st_simpl.
     apply cons_step_inv; [exact I0 | | reflexivity | apply Z.le_refl | exact FC].
-    cbn [goto tpc res rl]. pose proof (G_take _ _ _ _ _ _ _ _ _ Gs) as W.
+    cbn [goto tpc res rl dl]. pose proof (G_move _ _ _ _ _ _ _ _ _ _ Gs eq_refl) as W.
     change (zlen (@nil Z)) with 0 in W. rewrite Z.add_0_r, <- Eh in W. apply W. lia.
+  - (* PPopDestroy *) subst ch0. injection E as <- _ _. st_simpl.
+    apply cons_step_inv; [exact I0 | | reflexivity | apply Z.le_refl | exact FC].
+    cbn [goto tpc res rl dl]. pose proof (G_destroy _ _ _ _ _ _ _ _ _ _ Gs eq_refl) as W.
+    rewrite Z.add_0_r, <- Eh in W. exact W.
   - (* PPopStoreHead *) subst ch0. injection E as <- _ _. st_simpl.
     assert (V : vals_of r_pop (res (next (logr (th1 s) r_pop v))) = popped s ++ [v]).
     { rewrite vals_next_logr. reflexivity. }
     apply cons_step_inv; [exact I0 | | rewrite V; apply next_cf; exact FC | rewrite V, zlen_app; change (zlen [v]) with 1; lia | apply next_cp; exact FC].
-    rewrite next_rl, V. pose proof (G_commit_r _ _ _ _ _ _ _ _ _ Gs) as W.
+    rewrite next_rl, next_dl, V. pose proof (G_commit_r _ _ _ _ _ _ _ _ _ _ Gs eq_refl) as W.
     change (zlen [v]) with 1 in W. change (zlen [v]) with 1 in B1.
     rewrite Eh, increment_mod, succ_mod by (try apply Z.mod_pos_bound; lia). exact W.
   - (* PQLoadHead *) injection E as <- _ _. st_simpl.
@@ -501,36 +546,42 @@ Proof.
     { rewrite Eh, Et. apply avail_pop_spec; lia. }
     destruct ((avail_pop (K s) (head s) (tail s) =? 0) || (Z.min (avail_pop (K s) (head s) (tail s)) m =? 0)) eqn:C;
       injection E as <- _ _; st_simpl.
-    + apply cons_done_inv; [exact I0 | rewrite P; reflexivity | reflexivity].
+    + apply cons_done_inv; [exact I0 | rewrite P; reflexivity | rewrite P; reflexivity | reflexivity].
     + apply orb_false_iff in C. destruct C as [C1 C2]. apply Z.eqb_neq in C1, C2.
       apply cons_step_inv; [exact I0 | exact Gs | | apply Z.le_refl | exact FC].
       cbn [goto tpc res cons_facts]. change (vals_of r_pop (res (th1 s))) with (popped s).
       split; [rewrite Z.add_0_r; exact Eh|]. split; [reflexivity|]. lia.
-  - (* PQRead *) destruct CF as (-> & -> & Lt & Bc).
+  - (* PQRead *) destruct CF as (-> & -> & Lt & Bc). injection E as <- _ _. st_simpl.
     pose proof (zlen_nonneg acc) as Nacc.
-    pose proof (G_take _ _ _ _ _ _ _ _ _ Gs ltac:(lia)) as W.
-    assert (Ehp : increment (K s) ((zlen (popped s) + zlen acc) mod K s) = (zlen (popped s) + (zlen acc + 1)) mod K s).
+    pose proof (G_move _ _ _ _ _ _ _ _ _ _ Gs eq_refl ltac:(lia)) as W.
+    apply cons_step_inv; [exact I0 | exact W | | apply Z.le_refl | exact FC].
+    cbn [goto tpc res cons_facts]. change (vals_of r_pop (res (th1 s))) with (popped s).
+    split; [reflexivity|]. split; [rewrite zlen_app; reflexivity|]. lia.
+  - (* PQDestroy *) destruct CF as (-> & Ea & Lt & Bc).
+    pose proof (zlen_nonneg acc) as Nacc.
+    assert (Bd : 0 <= i) by (destruct Gs as (_ & _ & _ & _ & _ & Bd & _); lia).
+    pose proof (G_destroy _ _ _ _ _ _ _ _ _ _ Gs (eq_sym Ea)) as W.
+    assert (Ehp : increment (K s) ((zlen (popped s) + i) mod K s) = (zlen (popped s) + (i + 1)) mod K s).
     { rewrite increment_mod, succ_mod, Z.add_assoc by (try apply Z.mod_pos_bound; lia). reflexivity. }
-    assert (Ecn : zlen acc + 1 = zlen (acc ++ [slots s ((zlen (popped s) + zlen acc) mod K s)])) by (rewrite zlen_app; reflexivity).
-    destruct (zlen acc + 1 <? cnt) eqn:C; injection E as <- _ _; st_simpl.
+    destruct (i + 1 <? cnt) eqn:C; injection E as <- _ _; st_simpl.
     + apply cons_step_inv; [exact I0 | exact W | | apply Z.le_refl | exact FC].
       cbn [goto tpc res cons_facts]. change (vals_of r_pop (res (th1 s))) with (popped s). apply Z.ltb_lt in C.
-      split; [exact Ehp|]. split; [exact Ecn|]. lia.
-    + apply cons_step_inv; [exact I0 | exact W | | apply Z.le_refl | exact FC].
-      cbn [goto tpc res cons_facts]. change (vals_of r_pop (res (th1 s))) with (popped s). apply Z.ltb_ge in C.
-      assert (cnt = zlen acc + 1) by lia. subst cnt.
-      split; [exact Ehp|]. split; [exact Ecn|]. lia.
+      split; [exact Ehp|]. split; [exact Ea|]. lia.
+    + apply Z.ltb_ge in C. assert (cnt = i + 1) by lia. subst cnt.
+      apply cons_step_inv; [exact I0 | exact W | | apply Z.le_refl | exact FC].
+      cbn [goto tpc res cons_facts]. change (vals_of r_pop (res (th1 s))) with (popped s).
+      split; [exact Ehp|]. split; [exact Ea|]. lia.
   - (* PQStoreHead *) destruct CF as (-> & -> & Pos). injection E as <- _ _. st_simpl.
     assert (V : vals_of r_pop (res (next (logr (logrs (th1 s) r_pop acc) r_popb (zlen acc)))) = popped s ++ acc).
     { rewrite vals_next_logr. change (r_popb =? r_pop) with false. rewrite app_nil_r. cbn [logrs res].
       rewrite vals_of_logrs. reflexivity. }
     apply cons_step_inv; [exact I0 | | rewrite V; apply next_cf; exact FC | rewrite V, zlen_app; lia | apply next_cp; exact FC].
-    rewrite next_rl, V. exact (G_commit_r _ _ _ _ _ _ _ _ _ Gs).
+    rewrite next_rl, next_dl, V. exact (G_commit_r _ _ _ _ _ _ _ _ _ _ Gs eq_refl).
   - (* PSizeLoadHead *) injection E as <- _ _. st_simpl.
     apply cons_step_inv; [exact I0 | exact Gs | reflexivity | apply Z.le_refl | exact FC].
-  - (* PSizeLoadTail *) injection E as <- _ _. st_simpl. apply cons_done_inv; [exact I0 | rewrite P; reflexivity | reflexivity].
-  - (* PEmpty *) injection E as <- _ _. st_simpl. apply cons_done_inv; [exact I0 | rewrite P; reflexivity | reflexivity].
-  - (* PFull *) injection E as <- _ _. st_simpl. apply cons_done_inv; [exact I0 | rewrite P; reflexivity | reflexivity].
+  - (* PSizeLoadTail *) injection E as <- _ _. st_simpl. apply cons_done_inv; [exact I0 | rewrite P; reflexivity | rewrite P; reflexivity | reflexivity].
+  - (* PEmpty *) injection E as <- _ _. st_simpl. apply cons_done_inv; [exact I0 | rewrite P; reflexivity | rewrite P; reflexivity | reflexivity].
+  - (* PFull *) injection E as <- _ _. st_simpl. apply cons_done_inv; [exact I0 | rewrite P; reflexivity | rewrite P; reflexivity | reflexivity].
   - discriminate.
 Qed.
 
@@ -571,14 +622,14 @@ Qed.
 
 Lemma occupancy_spec s : Inv s -> occupancy s = zlen (pushed s) - zlen (popped s) /\ 0 <= occupancy s <= K s - 1.
 Proof.
-  intros (Gs & _). destruct (G_bounds _ _ _ _ _ _ _ _ _ Gs) as (Kb & Eh & Et & H0 & B1 & B2 & Nr & Nw).
+  intros (Gs & _). destruct (G_bounds _ _ _ _ _ _ _ _ _ _ Gs) as (Kb & Eh & Et & H0 & B1 & B2 & Nr & Nw).
   unfold occupancy. rewrite Eh, Et, <- Zminus_mod. rewrite Z.mod_small by lia. lia.
 Qed.
 
 Lemma popped_prefix s : Inv s -> popped s = firstn (Z.to_nat (zlen (popped s))) (pushed s).
 Proof.
-  intros (Gs & _). destruct (G_bounds _ _ _ _ _ _ _ _ _ Gs) as (Kb & Eh & Et & H0 & B1 & B2 & Nr & Nw).
-  destruct Gs as (_ & _ & _ & _ & _ & P1 & _).
+  intros (Gs & _). destruct (G_bounds _ _ _ _ _ _ _ _ _ _ Gs) as (Kb & Eh & Et & H0 & B1 & B2 & Nr & Nw).
+  destruct Gs as (_ & _ & _ & _ & _ & _ & P1 & _).
   assert (E : firstn (Z.to_nat (zlen (popped s))) (popped s ++ rl (tpc (th1 s))) = popped s).
   { rewrite firstn_app_le by (unfold zlen; lia). apply firstn_all2. unfold zlen. lia. }
   rewrite <- E at 1. rewrite P1, firstn_firstn. f_equal. lia.
@@ -587,8 +638,8 @@ Qed.
 Lemma contents_spec s : Inv s -> contents s = skipn (Z.to_nat (zlen (popped s))) (pushed s).
 Proof.
   intros I0. destruct (occupancy_spec s I0) as [Oc Ob]. destruct I0 as (Gs & _).
-  destruct (G_bounds _ _ _ _ _ _ _ _ _ Gs) as (Kb & Eh & Et & H0 & B1 & B2 & Nr & Nw).
-  destruct Gs as (_ & _ & _ & _ & _ & _ & V1 & _).
+  destruct (G_bounds _ _ _ _ _ _ _ _ _ _ Gs) as (Kb & Eh & Et & H0 & B1 & B2 & Nr & Nw).
+  destruct Gs as (_ & _ & _ & _ & _ & _ & _ & V1 & _).
   unfold contents. rewrite Eh.
   rewrite (ring_read_spec (slots s) (K s) (pushed s) Kb); [| lia | lia |].
   - apply firstn_all2. rewrite skipn_length. unfold zlen in *. lia.
@@ -605,7 +656,7 @@ Theorem spsc_bounded_inv s : Inv s ->
   zlen (pushed s) + zlen (wl (tpc (th0 s))) - zlen (popped s) <= K s - 1.
 Proof.
   intros I0. destruct (occupancy_spec s I0) as [Oc Ob]. pose proof (contents_spec s I0) as C.
-  destruct I0 as (Gs & _). destruct (G_bounds _ _ _ _ _ _ _ _ _ Gs) as (Kb & Eh & Et & H0 & B1 & B2 & Nr & Nw).
+  destruct I0 as (Gs & _). destruct (G_bounds _ _ _ _ _ _ _ _ _ _ Gs) as (Kb & Eh & Et & H0 & B1 & B2 & Nr & Nw).
   split; [|split; [exact Ob | lia]].
   rewrite C. unfold zlen in *. rewrite skipn_length. lia.
 Qed.
@@ -616,7 +667,7 @@ Theorem push_ok_iff_not_full_inv s v ct ch s' ch' site :
   (occupancy s < K s - 1 /\ tpc (th0 s') = PPushWrite v ct).
 Proof.
   intros I0 P E. destruct (occupancy_spec s I0) as [Oc Ob]. destruct I0 as (Gs & PF & _).
-  destruct (G_bounds _ _ _ _ _ _ _ _ _ Gs) as (Kb & Eh & Et & H0 & B1 & B2 & Nr & Nw).
+  destruct (G_bounds _ _ _ _ _ _ _ _ _ _ Gs) as (Kb & Eh & Et & H0 & B1 & B2 & Nr & Nw).
   rewrite P in PF, B2. cbn in PF, B2. subst ct.
   unfold step in E. cbn [get_thread] in E. rewrite P in E.
   assert (C : (increment (K s) (tail s) =? head s) = (occupancy s =? K s - 1)).
@@ -632,7 +683,7 @@ Theorem pop_ok_iff_not_empty_inv s c ch s' ch' site :
   (0 < occupancy s /\ tpc (th1 s') = PPopRead c).
 Proof.
   intros I0 P E. destruct (occupancy_spec s I0) as [Oc Ob]. destruct I0 as (Gs & _ & CF & _).
-  destruct (G_bounds _ _ _ _ _ _ _ _ _ Gs) as (Kb & Eh & Et & H0 & B1 & B2 & Nr & Nw).
+  destruct (G_bounds _ _ _ _ _ _ _ _ _ _ Gs) as (Kb & Eh & Et & H0 & B1 & B2 & Nr & Nw).
   rewrite P in CF, B1. cbn in CF, B1. subst c.
   unfold step in E. cbn [get_thread] in E. rewrite P in E.
   assert (C : (head s =? tail s) = (occupancy s =? 0)).
@@ -647,7 +698,7 @@ Theorem pushb_avail_as_observed_inv s vs ct : Inv s -> tpc (th0 s) = PBLoadHead 
   avail_push (K s) ct (head s) = K s - 1 - occupancy s.
 Proof.
   intros I0 P. destruct (occupancy_spec s I0) as [Oc Ob]. destruct I0 as (Gs & PF & _).
-  destruct (G_bounds _ _ _ _ _ _ _ _ _ Gs) as (Kb & Eh & Et & H0 & B1 & B2 & Nr & Nw).
+  destruct (G_bounds _ _ _ _ _ _ _ _ _ _ Gs) as (Kb & Eh & Et & H0 & B1 & B2 & Nr & Nw).
   rewrite P in PF, B2. cbn in PF, B2. subst ct. rewrite Oc, Eh, Et. apply avail_push_spec; lia.
 Qed.
 
@@ -655,7 +706,7 @@ Theorem popb_avail_as_observed_inv s m c : Inv s -> tpc (th1 s) = PQLoadTail m c
   avail_pop (K s) c (tail s) = occupancy s.
 Proof.
   intros I0 P. destruct (occupancy_spec s I0) as [Oc Ob]. destruct I0 as (Gs & _ & CF & _).
-  destruct (G_bounds _ _ _ _ _ _ _ _ _ Gs) as (Kb & Eh & Et & H0 & B1 & B2 & Nr & Nw).
+  destruct (G_bounds _ _ _ _ _ _ _ _ _ _ Gs) as (Kb & Eh & Et & H0 & B1 & B2 & Nr & Nw).
   rewrite P in CF, B1. cbn in CF, B1. destruct CF as [-> _]. rewrite Oc, Eh, Et. apply avail_pop_spec; lia.
 Qed.
 
@@ -663,8 +714,10 @@ Qed.
 Theorem lifetimes_inv s : Inv s ->
   l_errs (led s) = [] /\
   (forall p, zlen (popped s) + zlen (rl (tpc (th1 s))) <= p < zlen (pushed s) + zlen (wl (tpc (th0 s))) -> lget (led s) (p mod K s) = Alive) /\
-  (forall p, zlen (pushed s) + zlen (wl (tpc (th0 s))) <= p < zlen (popped s) + zlen (rl (tpc (th1 s))) + K s -> is_live (lget (led s) (p mod K s)) = false).
-Proof. intros ((_ & _ & _ & _ & _ & _ & _ & L1 & L2 & Ok) & _). auto. Qed.
+  (forall p, zlen (popped s) + dl (tpc (th1 s)) <= p < zlen (popped s) + zlen (rl (tpc (th1 s))) -> lget (led s) (p mod K s) = MovedFrom) /\
+  (forall p, zlen (pushed s) + zlen (wl (tpc (th0 s))) <= p < zlen (popped s) + dl (tpc (th1 s)) + K s -> is_live (lget (led s) (p mod K s)) = false) /\
+  0 <= dl (tpc (th1 s)) <= zlen (rl (tpc (th1 s))).
+Proof. intros ((_ & _ & _ & _ & _ & Bd & _ & _ & L1 & Lm & L2 & Ok) & _). auto. Qed.
 
 Lemma dtor_loop_spec k T : 2 <= k < 2 ^ 63 -> forall fuel l H,
   0 <= H <= T -> T - H <= Z.of_nat fuel -> T - H <= k - 1 ->
@@ -693,9 +746,10 @@ Theorem dtor_balanced_inv s : Inv s -> rl (tpc (th1 s)) = [] -> wl (tpc (th0 s))
   l_errs (dtor s) = [] /\ forall i, 0 <= i < K s -> is_live (lget (dtor s) i) = false.
 Proof.
   intros I0 R W. destruct I0 as (Gs & _). rewrite R, W in Gs.
-  destruct (G_bounds _ _ _ _ _ _ _ _ _ Gs) as (Kb & Eh & Et & H0 & B1 & B2 & Nr & Nw).
-  destruct Gs as (_ & _ & _ & _ & _ & _ & _ & L1 & L2 & Ok).
-  change (zlen (@nil Z)) with 0 in *. rewrite Z.add_0_r in *.
+  destruct (G_bounds _ _ _ _ _ _ _ _ _ _ Gs) as (Kb & Eh & Et & H0 & B1 & B2 & Nr & Nw).
+  destruct Gs as (_ & _ & _ & _ & _ & Bd & _ & _ & L1 & _ & L2 & Ok).
+  change (zlen (@nil Z)) with 0 in *.
+  assert (D0 : dl (tpc (th1 s)) = 0) by lia. rewrite D0 in L2. rewrite !Z.add_0_r in *.
   unfold dtor. rewrite Eh, Et.
   destruct (dtor_loop_spec (K s) (zlen (pushed s)) Kb (Z.to_nat (K s)) (led s) (zlen (popped s))) as [D1 D2]; [lia | lia | lia | intros p Hp; apply L1; lia | intros p Hp; apply L2; lia | exact Ok |].
   split; [exact D1|]. intros i Hi.
@@ -746,8 +800,11 @@ Lemma spsc_lifetimes k p0 p1 s : spsc_domain k p0 p1 -> reach step (init k p0 p1
   l_errs (led s) = [] /\
   (forall p, zlen (popped s) + zlen (rl (tpc (th1 s))) <= p < zlen (pushed s) + zlen (wl (tpc (th0 s))) ->
              lget (led s) (p mod K s) = Alive) /\
-  (forall p, zlen (pushed s) + zlen (wl (tpc (th0 s))) <= p < zlen (popped s) + zlen (rl (tpc (th1 s))) + K s ->
-             is_live (lget (led s) (p mod K s)) = false).
+  (forall p, zlen (popped s) + dl (tpc (th1 s)) <= p < zlen (popped s) + zlen (rl (tpc (th1 s))) ->
+             lget (led s) (p mod K s) = MovedFrom) /\
+  (forall p, zlen (pushed s) + zlen (wl (tpc (th0 s))) <= p < zlen (popped s) + dl (tpc (th1 s)) + K s ->
+             is_live (lget (led s) (p mod K s)) = false) /\
+  0 <= dl (tpc (th1 s)) <= zlen (rl (tpc (th1 s))).
 Proof. intros D R. apply lifetimes_inv. eapply spsc_reach_inv; eauto. Qed.
 
 Lemma spsc_dtor_balanced k p0 p1 s : spsc_domain k p0 p1 -> reach step (init k p0 p1) s ->
@@ -760,3 +817,20 @@ Proof. intros Hk Hi. apply increment_mod; lia. Qed.
 
 Lemma spsc_run_reach fuel k p0 p1 sched : reach step (init k p0 p1) (fst (fst (run_spsc fuel k p0 p1 sched))).
 Proof. apply run_reach. apply reach_refl. Qed.
+
+(* ================= the payload is dead before the head store that hands the slot(s) back ================= *)
+Lemma spsc_payload_dead_before_release k p0 p1 s : spsc_domain k p0 p1 -> reach step (init k p0 p1) s ->
+  match tpc (th1 s) with
+  | PPopStoreHead c v => is_live (lget (led s) c) = false
+  | PQStoreHead hp cnt acc => forall j, 0 <= j < cnt -> is_live (lget (led s) ((zlen (popped s) + j) mod K s)) = false
+  | _ => True
+  end.
+Proof.
+  intros D R. pose proof (spsc_reach_inv k p0 p1 s D R) as (Gs & _ & CF & _).
+  destruct (G_bounds _ _ _ _ _ _ _ _ _ _ Gs) as (Kb & Eh & Et & H0 & B1 & B2 & Nr & Nw).
+  destruct (tpc (th1 s)) eqn:P; try exact I; cbn [rl dl cons_facts] in Gs, CF, B1, B2.
+  - subst ch. destruct Gs as (_ & _ & _ & _ & _ & _ & _ & _ & _ & _ & L2 & _).
+    rewrite Eh, <- (mod_plus_k (zlen (popped s)) (K s)) by lia. apply L2. change (zlen [v]) with 1 in *. lia.
+  - destruct CF as (-> & -> & Pos). destruct Gs as (_ & _ & _ & _ & _ & _ & _ & _ & _ & _ & L2 & _).
+    intros j Hj. rewrite <- (mod_plus_k (zlen (popped s) + j) (K s)) by lia. apply L2. lia.
+Qed.
